@@ -293,7 +293,9 @@ func (i *c10Inst) Enabled(op int) bool {
 	case "reopen":
 		return i.reop < 2 && i.lastKind != "reopen"
 	case "hdr":
-		return i.hdr < 1
+		// twice: the second call for the same kind replaces the first definition, which changes the
+		// relationship list without growing it (seed C10-d2)
+		return i.hdr < 2
 	case "list":
 		return i.list < 1
 	}
@@ -1036,7 +1038,7 @@ func runC10(r *rep.Run) {
 	r.Bounds["alphabet_without_seeds"] = c10SeedBase
 	r.Bounds["foreign_seeds"] = len(c10Seeds)
 	r.Bounds["max_reopen_per_history"] = 2
-	r.Bounds["max_AddHeader_per_history"] = 1
+	r.Bounds["max_AddHeader_per_history"] = 2
 	r.Bounds["max_AddListItem_per_history"] = 1
 	r.Bounds["extent_tolerance_emu"] = 1
 	r.Assume = []string{
